@@ -1,1 +1,444 @@
-/-! Property theorems for C17 — placeholder until the property's model is built. -/
+import FcpptModel.Spec.C17
+import FcpptProofs.C17.Types
+import FcpptProofs.C17.Int
+import FcpptProofs.Props.C10
+/-!
+# C17 — property theorems
+
+Part (a): every `strong_typedef` operator is unwrap – operate – wrap (`transparent_*`), the assigning and
+stepping forms produce the value of the plain operator and hand back the operand / the old copy, the C operator
+itself is the exact integer result (signed) or the result modulo 2^bits (unsigned).
+
+Part (b): for every comparison function as coded, for **any** component type whose `==` is equality
+(`LawfulEq`) and whose `<` is a strict total order (`StrictTotal`), and for values of any size / shape:
+`==` holds exactly when the values are equal (`*_eq_iff_components`) and is therefore an equivalence
+(`*_eq_equivalence`), `!=` is its negation (`*_ne_eq_not`), `<` is a strict weak order (`*_lt_strict_weak`)
+compatible with `==` (`*_lt_compatible_eq`), the derived `> <= >=` are consistent (`*_order_ops`), equal values
+have equal hashes for any `hash_combine` and component hash (`*_hash_eq_of_eq`), and the comparisons that walk
+two ranges never read out of bounds (the `.ok` in the grid / raw_vector statements).
+
+Only theorems live in this file; the lemmas are in `FcpptProofs/C17/`.
+-/
+namespace Fcppt.C17
+variable {α β : Type}
+
+/-! ## Part (a): strong_typedef is transparent -/
+
+/-- `get` of a constructed strong_typedef is the wrapped value (constructor / `get` pair) -/
+theorem transparent_get (v : Int) : (ST.mk v).get = v := rfl
+
+theorem transparent_add (t : IntTy) (l r : ST) : ST.add t l r = (t.add l.get r.get).map ST.mk := by
+  unfold ST.add; cases t.add l.get r.get <;> rfl
+theorem transparent_sub (t : IntTy) (l r : ST) : ST.sub t l r = (t.sub l.get r.get).map ST.mk := by
+  unfold ST.sub; cases t.sub l.get r.get <;> rfl
+theorem transparent_mul (t : IntTy) (l r : ST) : ST.mul t l r = (t.mul l.get r.get).map ST.mk := by
+  unfold ST.mul; cases t.mul l.get r.get <;> rfl
+theorem transparent_neg (t : IntTy) (x : ST) : ST.neg t x = (t.neg x.get).map ST.mk := by
+  unfold ST.neg; cases t.neg x.get <;> rfl
+theorem transparent_and (t : IntTy) (l r : ST) : ST.band t l r = ST.mk (t.band l.get r.get) := rfl
+theorem transparent_or (t : IntTy) (l r : ST) : ST.bor t l r = ST.mk (t.bor l.get r.get) := rfl
+theorem transparent_xor (t : IntTy) (l r : ST) : ST.bxor t l r = ST.mk (t.bxor l.get r.get) := rfl
+theorem transparent_not (t : IntTy) (x : ST) : ST.bnot t x = ST.mk (t.bnot x.get) := rfl
+
+/-- `l op= r` leaves in `l` exactly what `l op r` returns, and the returned reference shows it -/
+theorem transparent_add_assign (t : IntTy) (l r : ST) : ST.addAssign t l r = (ST.add t l r).map fun s => (s, s) := by
+  unfold ST.addAssign ST.add; cases t.add l.get r.get <;> rfl
+theorem transparent_sub_assign (t : IntTy) (l r : ST) : ST.subAssign t l r = (ST.sub t l r).map fun s => (s, s) := by
+  unfold ST.subAssign ST.sub; cases t.sub l.get r.get <;> rfl
+theorem transparent_mul_assign (t : IntTy) (l r : ST) : ST.mulAssign t l r = (ST.mul t l r).map fun s => (s, s) := by
+  unfold ST.mulAssign ST.mul; cases t.mul l.get r.get <;> rfl
+theorem transparent_and_assign (t : IntTy) (l r : ST) : ST.andAssign t l r = (ST.band t l r, ST.band t l r) := rfl
+theorem transparent_or_assign (t : IntTy) (l r : ST) : ST.orAssign t l r = (ST.bor t l r, ST.bor t l r) := rfl
+theorem transparent_xor_assign (t : IntTy) (l r : ST) : ST.xorAssign t l r = (ST.bxor t l r, ST.bxor t l r) := rfl
+
+/-- `++x`: operand and result are both `x + 1` of the underlying type -/
+theorem transparent_pre_inc (t : IntTy) (x : ST) :
+    ST.preInc t x = (t.add x.get 1).map fun v => (ST.mk v, ST.mk v) := by
+  unfold ST.preInc; cases t.add x.get 1 <;> rfl
+theorem transparent_pre_dec (t : IntTy) (x : ST) :
+    ST.preDec t x = (t.sub x.get 1).map fun v => (ST.mk v, ST.mk v) := by
+  unfold ST.preDec; cases t.sub x.get 1 <;> rfl
+/-- `x++`: the operand becomes `x + 1`, the result is the old value -/
+theorem transparent_post_inc (t : IntTy) (x : ST) :
+    ST.postInc t x = (t.add x.get 1).map fun v => (ST.mk v, x) := by
+  unfold ST.postInc ST.preInc; cases t.add x.get 1 <;> rfl
+theorem transparent_post_dec (t : IntTy) (x : ST) :
+    ST.postDec t x = (t.sub x.get 1).map fun v => (ST.mk v, x) := by
+  unfold ST.postDec ST.preDec; cases t.sub x.get 1 <;> rfl
+
+/-- the six comparison operators are those of the wrapped values -/
+theorem transparent_comparison (l r : ST) :
+    ST.lt l r = decide (l.get < r.get) ∧ ST.le l r = decide (l.get ≤ r.get) ∧ ST.gt l r = decide (l.get > r.get) ∧
+    ST.ge l r = decide (l.get ≥ r.get) ∧ ST.eq l r = decide (l.get = r.get) ∧ ST.ne l r = decide (l.get ≠ r.get) :=
+  ⟨rfl, rfl, rfl, rfl, rfl, rfl⟩
+
+/-- the hash is the hash of the wrapped value -/
+theorem transparent_hash (h : Int → Nat) (x : ST) : ST.hash h x = h x.get := rfl
+
+/-- `type_iso::transform<strong_typedef>`: `decorate` and `undecorate` are inverse -/
+theorem type_iso_round_trip (v : Int) (s : ST) :
+    ST.undecorate (ST.decorate v) = v ∧ ST.decorate (ST.undecorate s) = s := ⟨rfl, rfl⟩
+
+/-- what the underlying signed operator yields: the exact integer result if representable … -/
+theorem int_arith_signed_exact (t : IntTy) (hs : t.signed = true) (a b : Int) :
+    (t.Repr (a + b) → t.add a b = .ok (a + b)) ∧ (t.Repr (a - b) → t.sub a b = .ok (a - b)) ∧
+    (t.Repr (a * b) → t.mul a b = .ok (a * b)) ∧ (t.Repr (-a) → t.neg a = .ok (-a)) :=
+  ⟨IntTy.arith_signed_ok t hs _, IntTy.arith_signed_ok t hs _, IntTy.arith_signed_ok t hs _, IntTy.arith_signed_ok t hs _⟩
+
+/-- … and undefined behaviour (reported as a fault, `ub` in the correspondence) otherwise -/
+theorem int_arith_signed_overflow (t : IntTy) (hs : t.signed = true) (a b : Int) :
+    (¬ t.Repr (a + b) → t.add a b = .error .signedOverflow) ∧ (¬ t.Repr (a - b) → t.sub a b = .error .signedOverflow) ∧
+    (¬ t.Repr (a * b) → t.mul a b = .error .signedOverflow) ∧ (¬ t.Repr (-a) → t.neg a = .error .signedOverflow) :=
+  ⟨IntTy.arith_signed_overflow t hs _, IntTy.arith_signed_overflow t hs _, IntTy.arith_signed_overflow t hs _,
+   IntTy.arith_signed_overflow t hs _⟩
+
+/-- unsigned operators never fault and wrap modulo 2^bits -/
+theorem int_arith_unsigned_wraps (t : IntTy) (hs : t.signed = false) (a b : Int) :
+    t.add a b = .ok ((a + b) % 2 ^ t.bits) ∧ t.sub a b = .ok ((a - b) % 2 ^ t.bits) ∧
+    t.mul a b = .ok ((a * b) % 2 ^ t.bits) ∧ t.neg a = .ok ((-a) % 2 ^ t.bits) :=
+  ⟨IntTy.arith_unsigned t hs _, IntTy.arith_unsigned t hs _, IntTy.arith_unsigned t hs _, IntTy.arith_unsigned t hs _⟩
+
+/-- every successful arithmetic result is again a value of the type -/
+theorem int_arith_closed (t : IntTy) (a b v : Int) :
+    (t.add a b = .ok v → t.Repr v) ∧ (t.sub a b = .ok v → t.Repr v) ∧ (t.mul a b = .ok v → t.Repr v) ∧
+    (t.neg a = .ok v → t.Repr v) :=
+  ⟨IntTy.arith_repr t _ v, IntTy.arith_repr t _ v, IntTy.arith_repr t _ v, IntTy.arith_repr t _ v⟩
+
+/-! ### strong_typedef: comparison coherence -/
+
+theorem strong_typedef_eq_iff_components (l r : ST) : ST.eq l r = true ↔ l = r := ST.eq_iff l r
+theorem strong_typedef_eq_equivalence : IsEquivalence ST.eq := LawfulEq.isEquivalence ST.eq_iff
+theorem strong_typedef_ne_eq_not (l r : ST) : ST.ne l r = !ST.eq l r := by simp [ST.ne, ST.eq]
+theorem strong_typedef_lt_strict_weak : StrictWeak ST.lt := ST.lt_strictTotal.strictWeak
+theorem strong_typedef_lt_compatible_eq : Compatible (fun l r => ST.eq l r = true) ST.lt :=
+  compatible_of ST.eq_iff ST.lt_strictTotal
+theorem strong_typedef_order_ops : OrderOps ST.lt ST.gt ST.le ST.ge where
+  gt_iff a b := by simp [ST.gt, ST.lt]
+  le_iff a b := by
+    simp only [ST.le, ST.lt, decide_eq_true_eq]
+    constructor
+    · intro h
+      rcases Int.lt_or_eq_of_le h with h | h
+      · exact Or.inl h
+      · exact Or.inr (ST.ext' a b h)
+    · rintro (h | rfl)
+      · exact Int.le_of_lt h
+      · exact Int.le_refl _
+  ge_iff a b := by
+    simp only [ST.ge, ST.lt, decide_eq_true_eq]
+    constructor
+    · intro h
+      rcases Int.lt_or_eq_of_le h with h | h
+      · exact Or.inl h
+      · exact Or.inr (ST.ext' a b h.symm)
+    · rintro (h | rfl)
+      · exact Int.le_of_lt h
+      · exact Int.le_refl _
+theorem strong_typedef_hash_eq_of_eq (h : Int → Nat) (l r : ST) (he : ST.eq l r = true) : ST.hash h l = ST.hash h r := by
+  rw [(ST.eq_iff l r).1 he]
+
+/-! ## Part (b) -/
+
+/-! ### building blocks of the standard library, as used by the headers -/
+
+/-- `std::equal` with three iterators is safe exactly because the callers compare the sizes first:
+equal lengths → no fault and the answer is equality -/
+theorem std_equal_same_length {eq : α → α → Bool} (he : LawfulEq eq) (a b : List α) (h : a.length = b.length) :
+    ∃ r, stdEqual3 eq a b = .ok r ∧ (r = true ↔ a = b) := stdEqual3_same_length he a b h
+
+/-- … and it reads out of bounds when the second range is a proper prefix of the first -/
+theorem std_equal_shorter_second_oob {eq : α → α → Bool} (he : LawfulEq eq) (b : List α) (x : α) (s : List α) :
+    stdEqual3 eq (b ++ x :: s) b = .error .oob := stdEqual3_oob he b x s
+
+/-- `std::lexicographical_compare` decides the lexicographic order and is a strict total order -/
+theorem lexicographical_compare_spec {lt : α → α → Bool} (h : StrictTotal lt) (a b : List α) :
+    lexCompare lt a b = true ↔ LexLt lt a b := lexCompare_iff_lexLt h a b
+theorem lexicographical_compare_strict_total {lt : α → α → Bool} (h : StrictTotal lt) : StrictTotal (lexCompare lt) :=
+  lexCompare_strictTotal h
+
+/-! ### optional -/
+theorem optional_eq_iff_components {eq : α → α → Bool} (he : LawfulEq eq) (a b : Option α) :
+    Opt.eq eq a b = true ↔ a = b := Opt.eq_iff he a b
+theorem optional_eq_equivalence {eq : α → α → Bool} (he : LawfulEq eq) : IsEquivalence (Opt.eq eq) :=
+  LawfulEq.isEquivalence (Opt.eq_iff he)
+theorem optional_ne_eq_not (eq : α → α → Bool) (a b : Option α) : Opt.ne eq a b = !Opt.eq eq a b := rfl
+theorem optional_lt_strict_weak {lt : α → α → Bool} (h : StrictTotal lt) : StrictWeak (Opt.lt lt) :=
+  (Opt.lt_strictTotal h).strictWeak
+theorem optional_lt_compatible_eq {eq lt : α → α → Bool} (he : LawfulEq eq) (h : StrictTotal lt) :
+    Compatible (fun a b => Opt.eq eq a b = true) (Opt.lt lt) := compatible_of (Opt.eq_iff he) (Opt.lt_strictTotal h)
+/-- the empty optional is the least element -/
+theorem optional_nothing_least (lt : α → α → Bool) (a : Option α) (y : α) :
+    Opt.lt lt none (some y) = true ∧ Opt.lt lt a none = false := ⟨rfl, Opt.lt_none lt a⟩
+
+/-! ### either -/
+theorem either_eq_iff_components {eqF : α → α → Bool} {eqS : β → β → Bool} (hF : LawfulEq eqF) (hS : LawfulEq eqS)
+    (a b : Sum α β) : Either.eq eqF eqS a b = true ↔ a = b := Either.eq_iff hF hS a b
+theorem either_eq_equivalence {eqF : α → α → Bool} {eqS : β → β → Bool} (hF : LawfulEq eqF) (hS : LawfulEq eqS) :
+    IsEquivalence (Either.eq eqF eqS) := LawfulEq.isEquivalence (Either.eq_iff hF hS)
+theorem either_ne_eq_not (eqF : α → α → Bool) (eqS : β → β → Bool) (a b : Sum α β) :
+    Either.ne eqF eqS a b = !Either.eq eqF eqS a b := rfl
+
+/-! ### variant -/
+theorem variant_eq_iff_components {eq : α → α → Bool} (he : LawfulEq eq) (a b : Var α) :
+    Var.eq eq a b = true ↔ a = b := Var.eq_iff he a b
+theorem variant_eq_equivalence {eq : α → α → Bool} (he : LawfulEq eq) : IsEquivalence (Var.eq eq) :=
+  LawfulEq.isEquivalence (Var.eq_iff he)
+theorem variant_ne_eq_not (eq : α → α → Bool) (a b : Var α) : Var.ne eq a b = !Var.eq eq a b := rfl
+theorem variant_lt_strict_weak {lt : α → α → Bool} (h : StrictTotal lt) : StrictWeak (Var.lt lt) :=
+  (Var.lt_strictTotal h).strictWeak
+theorem variant_lt_compatible_eq {eq lt : α → α → Bool} (he : LawfulEq eq) (h : StrictTotal lt) :
+    Compatible (fun a b => Var.eq eq a b = true) (Var.lt lt) := compatible_of (Var.eq_iff he) (Var.lt_strictTotal h)
+/-- `variant::compare` with `==` as comparer is `==` of the variants -/
+theorem variant_compare_eq (eq : α → α → Bool) (a b : Var α) : Var.compare eq a b = Var.eq eq a b := by
+  unfold Var.compare Var.eq
+  by_cases h : a.idx = b.idx <;> simp [h]
+
+/-! ### tuple, array, enum array, math::vector, math::dim, math::matrix (index-wise `==`) -/
+theorem array_eq_iff_components {n : Nat} {eq : α → α → Bool} (he : LawfulEq eq) (a b : Vector α n) :
+    equalV eq a b = true ↔ a = b := equalV_iff he a b
+theorem array_eq_equivalence {n : Nat} {eq : α → α → Bool} (he : LawfulEq eq) : IsEquivalence (equalV (n := n) eq) :=
+  LawfulEq.isEquivalence (equalV_iff he)
+theorem vector_eq_iff_components {n : Nat} {eq : α → α → Bool} (he : LawfulEq eq) (a b : Vector α n) :
+    MVec.eq eq a b = true ↔ a = b := equalV_iff he a b
+theorem vector_eq_equivalence {n : Nat} {eq : α → α → Bool} (he : LawfulEq eq) : IsEquivalence (MVec.eq (n := n) eq) :=
+  LawfulEq.isEquivalence (equalV_iff he)
+theorem vector_ne_eq_not {n : Nat} (eq : α → α → Bool) (a b : Vector α n) : MVec.ne eq a b = !MVec.eq eq a b := rfl
+theorem vector_lt_strict_weak {n : Nat} {lt : α → α → Bool} (h : StrictTotal lt) : StrictWeak (MVec.lt (n := n) lt) :=
+  (arrayLess_strictTotal h).strictWeak
+theorem vector_lt_compatible_eq {n : Nat} {eq lt : α → α → Bool} (he : LawfulEq eq) (h : StrictTotal lt) :
+    Compatible (fun a b : Vector α n => MVec.eq eq a b = true) (MVec.lt lt) :=
+  compatible_of (equalV_iff he) (arrayLess_strictTotal h)
+theorem vector_order_ops {n : Nat} {lt : α → α → Bool} (h : StrictTotal lt) :
+    OrderOps (MVec.lt (n := n) lt) (MVec.gt lt) (MVec.le lt) (MVec.ge lt) := orderOps_of (arrayLess_strictTotal h)
+/-- `<` on vectors / dims is the lexicographic order of the components -/
+theorem vector_lt_lexicographic {n : Nat} {lt : α → α → Bool} (h : StrictTotal lt) (a b : Vector α n) :
+    MVec.lt lt a b = true ↔ LexLt lt a.toList b.toList := lexCompare_iff_lexLt h _ _
+/-- covers `std::hash` of vector, dim, matrix and `range::hash` of an array -/
+theorem vector_hash_eq_of_eq {n : Nat} {eq : α → α → Bool} (he : LawfulEq eq) (hc : Nat → Nat → Nat) (h : α → Nat)
+    (a b : Vector α n) (hab : MVec.eq eq a b = true) : MVec.hash hc h a = MVec.hash hc h b := by
+  rw [(equalV_iff he a b).1 hab]
+
+/-! the same code paths under the names of the other types that use them -/
+/-- `fcppt::tuple` (`std::tuple ==`) -/
+theorem tuple_eq_iff_components {n : Nat} {eq : α → α → Bool} (he : LawfulEq eq) (a b : Vector α n) :
+    equalV eq a b = true ↔ a = b := equalV_iff he a b
+theorem tuple_eq_equivalence {n : Nat} {eq : α → α → Bool} (he : LawfulEq eq) : IsEquivalence (equalV (n := n) eq) :=
+  LawfulEq.isEquivalence (equalV_iff he)
+/-- `fcppt::enum_::array` (`std::equal` over two arrays of the same static size) -/
+theorem enum_array_eq_iff_components {n : Nat} {eq : α → α → Bool} (he : LawfulEq eq) (a b : Vector α n) :
+    equalV eq a b = true ↔ a = b := equalV_iff he a b
+theorem enum_array_eq_equivalence {n : Nat} {eq : α → α → Bool} (he : LawfulEq eq) : IsEquivalence (equalV (n := n) eq) :=
+  LawfulEq.isEquivalence (equalV_iff he)
+/-- `math::matrix<R, C>`: `array_equal` over the `R * C` cells of the row-major storage -/
+theorem matrix_eq_iff_components {r c : Nat} {eq : α → α → Bool} (he : LawfulEq eq) (a b : Vector α (r * c)) :
+    MVec.eq eq a b = true ↔ a = b := equalV_iff he a b
+theorem matrix_eq_equivalence {r c : Nat} {eq : α → α → Bool} (he : LawfulEq eq) :
+    IsEquivalence (MVec.eq (n := r * c) eq) := LawfulEq.isEquivalence (equalV_iff he)
+theorem matrix_hash_eq_of_eq {r c : Nat} {eq : α → α → Bool} (he : LawfulEq eq) (hc : Nat → Nat → Nat) (h : α → Nat)
+    (a b : Vector α (r * c)) (hab : MVec.eq eq a b = true) : MVec.hash hc h a = MVec.hash hc h b := by
+  rw [(equalV_iff he a b).1 hab]
+/-- `range::hash` of an `fcppt::array` -/
+theorem array_hash_eq_of_eq {n : Nat} {eq : α → α → Bool} (he : LawfulEq eq) (hc : Nat → Nat → Nat) (h : α → Nat)
+    (a b : Vector α n) (hab : equalV eq a b = true) : rangeHash hc h a.toList = rangeHash hc h b.toList := by
+  rw [(equalV_iff he a b).1 hab]
+
+/-! ### record -/
+/-- records of equivalent types (same labels, any element order): `==` is defined and holds exactly when every
+label has the same value on both sides -/
+theorem record_eq_iff_components {eq : α → α → Bool} (he : LawfulEq eq) (r1 r2 : Rec α)
+    (hq : Rec.equivalent r1 r2 = true) :
+    ∃ b, Rec.eq eq r1 r2 = some b ∧ (b = true ↔ ∀ l ∈ Rec.labels r1, List.lookup l r1 = List.lookup l r2) :=
+  Rec.eq_spec he r1 r2 hq
+theorem record_ne_eq_not (eq : α → α → Bool) (r1 r2 : Rec α) : Rec.ne eq r1 r2 = (Rec.eq eq r1 r2).map (!·) := rfl
+/-- records that are not equivalent are rejected (static_assert) -/
+theorem record_not_equivalent {eq : α → α → Bool} (r1 r2 : Rec α) (hq : Rec.equivalent r1 r2 = false) :
+    Rec.eq eq r1 r2 = none := Rec.eq_none r1 r2 hq
+
+/-! ### box, sphere -/
+theorem box_eq_iff_components {n : Nat} {eq : α → α → Bool} (he : LawfulEq eq) (a b : Box α n) :
+    Box.eq eq a b = true ↔ a = b := Box.eq_iff he a b
+theorem box_eq_equivalence {n : Nat} {eq : α → α → Bool} (he : LawfulEq eq) : IsEquivalence (Box.eq (n := n) eq) :=
+  LawfulEq.isEquivalence (Box.eq_iff he)
+theorem box_ne_eq_not {n : Nat} (eq : α → α → Bool) (a b : Box α n) : Box.ne eq a b = !Box.eq eq a b := rfl
+theorem box_lt_strict_weak {n : Nat} {lt : α → α → Bool} (h : StrictTotal lt) : StrictWeak (Box.lt (n := n) lt) :=
+  (Box.lt_strictTotal h).strictWeak
+theorem box_lt_compatible_eq {n : Nat} {eq lt : α → α → Bool} (he : LawfulEq eq) (h : StrictTotal lt) :
+    Compatible (fun a b : Box α n => Box.eq eq a b = true) (Box.lt lt) :=
+  compatible_of (Box.eq_iff he) (Box.lt_strictTotal h)
+theorem sphere_eq_iff_components {n : Nat} {eq : α → α → Bool} (he : LawfulEq eq) (a b : Sphere α n) :
+    Sphere.eq eq a b = true ↔ a = b := Sphere.eq_iff he a b
+theorem sphere_eq_equivalence {n : Nat} {eq : α → α → Bool} (he : LawfulEq eq) : IsEquivalence (Sphere.eq (n := n) eq) :=
+  LawfulEq.isEquivalence (Sphere.eq_iff he)
+theorem sphere_ne_eq_not {n : Nat} (eq : α → α → Bool) (a b : Sphere α n) : Sphere.ne eq a b = !Sphere.eq eq a b := rfl
+
+/-! ### grid (values satisfying the class invariant `Grid.Wf`) -/
+/-- `==` never reads out of bounds and holds exactly when extent and content are equal -/
+theorem grid_eq_iff_components {n : Nat} {eq : α → α → Bool} (he : LawfulEq eq) (a b : Grid α n) (ha : a.Wf) (hb : b.Wf) :
+    ∃ r, Grid.eq eq a b = .ok r ∧ (r = true ↔ a = b) := Grid.eq_spec he a b ha hb
+theorem grid_eq_equivalence {n : Nat} {eq : α → α → Bool} (he : LawfulEq eq) :
+    Equivalence (fun (a b : {g : Grid α n // g.Wf}) => Grid.eq eq a.1 b.1 = .ok true) := by
+  have key : ∀ a b : {g : Grid α n // g.Wf}, Grid.eq eq a.1 b.1 = .ok true ↔ a = b := by
+    intro a b
+    obtain ⟨r, hr, hiff⟩ := Grid.eq_spec he a.1 b.1 a.2 b.2
+    rw [hr]
+    constructor
+    · intro h
+      have : r = true := by injection h
+      exact Subtype.ext (hiff.1 this)
+    · intro h
+      rw [hiff.2 (congrArg Subtype.val h)]
+  exact ⟨fun a => (key a a).2 rfl, fun h => (key _ _).2 ((key _ _).1 h).symm,
+    fun h1 h2 => (key _ _).2 (((key _ _).1 h1).trans ((key _ _).1 h2))⟩
+theorem grid_ne_eq_not {n : Nat} (eq : α → α → Bool) (a b : Grid α n) :
+    Grid.ne eq a b = (Grid.eq eq a b).map (!·) := by
+  unfold Grid.ne; cases Grid.eq eq a b <;> rfl
+theorem grid_lt_strict_weak {n : Nat} {lt : α → α → Bool} (h : StrictTotal lt) : StrictWeak (Grid.lt (n := n) lt) :=
+  (Grid.lt_strictTotal h).strictWeak
+theorem grid_lt_compatible_eq {n : Nat} {eq lt : α → α → Bool} (he : LawfulEq eq) (h : StrictTotal lt) :
+    Compatible (fun (a b : {g : Grid α n // g.Wf}) => Grid.eq eq a.1 b.1 = .ok true) (fun a b => Grid.lt lt a.1 b.1) := by
+  apply compatible_of
+  · intro a b
+    obtain ⟨r, hr, hiff⟩ := Grid.eq_spec he a.1 b.1 a.2 b.2
+    rw [hr]
+    constructor
+    · intro h
+      have : r = true := by injection h
+      exact Subtype.ext (hiff.1 this)
+    · intro h
+      rw [hiff.2 (congrArg Subtype.val h)]
+  · exact (Grid.lt_strictTotal h).comap Subtype.val (fun _ _ e => Subtype.ext e)
+theorem grid_order_ops {n : Nat} {lt : α → α → Bool} (h : StrictTotal lt) :
+    OrderOps (Grid.lt (n := n) lt) (Grid.gt lt) (Grid.le lt) (Grid.ge lt) := orderOps_of (Grid.lt_strictTotal h)
+/-- the extent is compared first (lexicographically), the content only between grids of the same extent -/
+theorem grid_lt_size_first {n : Nat} {lt : α → α → Bool} (a b : Grid α n) :
+    Grid.lt lt a b = true ↔
+      (arrayLess Grid.natLt a.size b.size = true ∨ (a.size = b.size ∧ lexCompare lt a.data b.data = true)) :=
+  Grid.lt_iff a b
+
+/-! ### tree -/
+theorem tree_eq_iff_components {eq : α → α → Bool} (he : LawfulEq eq) (t u : Tree α) :
+    Tree.eq eq t u = true ↔ t = u := Tree.eq_iff he t u
+theorem tree_eq_equivalence {eq : α → α → Bool} (he : LawfulEq eq) : IsEquivalence (Tree.eq eq) :=
+  LawfulEq.isEquivalence (Tree.eq_iff he)
+theorem tree_ne_eq_not (eq : α → α → Bool) (t u : Tree α) : Tree.ne eq t u = !Tree.eq eq t u := rfl
+
+/-! ### raw_vector -/
+/-- `==` never reads out of bounds (the size test guards `std::equal`) and is equality of the element lists -/
+theorem raw_vector_eq_iff_components {eq : α → α → Bool} (he : LawfulEq eq) (l r : List α) :
+    ∃ b, RawVec.eq eq l r = .ok b ∧ (b = true ↔ l = r) := RawVec.eq_spec he l r
+theorem raw_vector_eq_true_iff {eq : α → α → Bool} (he : LawfulEq eq) (l r : List α) :
+    RawVec.eq eq l r = .ok true ↔ l = r := by
+  obtain ⟨b, hb, hiff⟩ := RawVec.eq_spec he l r
+  rw [hb]
+  constructor
+  · intro h
+    have : b = true := by injection h
+    exact hiff.1 this
+  · intro h; rw [hiff.2 h]
+theorem raw_vector_eq_equivalence {eq : α → α → Bool} (he : LawfulEq eq) :
+    Equivalence (fun l r : List α => RawVec.eq eq l r = .ok true) := by
+  have key := raw_vector_eq_true_iff he
+  exact ⟨fun a => (key a a).2 rfl, fun h => (key _ _).2 ((key _ _).1 h).symm,
+    fun h1 h2 => (key _ _).2 (((key _ _).1 h1).trans ((key _ _).1 h2))⟩
+theorem raw_vector_ne_eq_not (eq : α → α → Bool) (l r : List α) : RawVec.ne eq l r = (RawVec.eq eq l r).map (!·) := by
+  unfold RawVec.ne; cases RawVec.eq eq l r <;> rfl
+theorem raw_vector_lt_strict_weak {lt : α → α → Bool} (h : StrictTotal lt) : StrictWeak (RawVec.lt lt) :=
+  (lexCompare_strictTotal h).strictWeak
+theorem raw_vector_lt_compatible_eq {eq lt : α → α → Bool} (he : LawfulEq eq) (h : StrictTotal lt) :
+    Compatible (fun l r : List α => RawVec.eq eq l r = .ok true) (RawVec.lt lt) :=
+  compatible_of (raw_vector_eq_true_iff he) (lexCompare_strictTotal h)
+theorem raw_vector_order_ops {lt : α → α → Bool} (h : StrictTotal lt) :
+    OrderOps (RawVec.lt lt) (RawVec.gt lt) (RawVec.le lt) (RawVec.ge lt) := by
+  have := orderOps_of (lexCompare_strictTotal h)
+  exact ⟨this.gt_iff, this.le_iff, this.ge_iff⟩
+theorem raw_vector_hash_eq_of_eq {eq : α → α → Bool} (he : LawfulEq eq) (hc : Nat → Nat → Nat) (h : α → Nat)
+    (l r : List α) (hlr : RawVec.eq eq l r = .ok true) : rangeHash hc h l = rangeHash hc h r := by
+  rw [(raw_vector_eq_true_iff he l r).1 hlr]
+
+/-! ### recursive -/
+theorem recursive_eq_iff_components {eq : α → α → Bool} (he : LawfulEq eq) (a b : α) :
+    Recursive.eq eq a b = true ↔ a = b := he a b
+theorem recursive_ne_eq_not (eq : α → α → Bool) (a b : α) : Recursive.ne eq a b = !Recursive.eq eq a b := rfl
+
+/-! ### reference -/
+/-- two references are equal exactly when they designate the same object -/
+theorem reference_eq_iff_components (a b : Ref) : Ref.eq a b = true ↔ a = b := Ref.eq_iff a b
+theorem reference_eq_equivalence : IsEquivalence Ref.eq := LawfulEq.isEquivalence Ref.eq_iff
+theorem reference_ne_eq_not (a b : Ref) : Ref.ne a b = !Ref.eq a b := rfl
+theorem reference_lt_strict_weak : StrictWeak Ref.lt := Ref.lt_strictTotal.strictWeak
+theorem reference_lt_compatible_eq : Compatible (fun a b => Ref.eq a b = true) Ref.lt :=
+  compatible_of Ref.eq_iff Ref.lt_strictTotal
+theorem reference_hash_eq_of_eq (hp : Nat → Nat) (a b : Ref) (h : Ref.eq a b = true) : Ref.hash hp a = Ref.hash hp b := by
+  rw [(Ref.eq_iff a b).1 h]
+/-- `get` yields the referent itself -/
+theorem reference_get_exposes (mem : Nat → α) (a : Ref) : Ref.get mem a = mem a.addr := rfl
+
+/-! ### shared_ptr (compared and hashed by the stored pointer, whoever owns it) -/
+theorem shared_ptr_eq_iff_components (a b : SPtr) : SPtr.eq a b = true ↔ a.ptr = b.ptr := SPtr.eq_iff a b
+theorem shared_ptr_eq_equivalence : IsEquivalence SPtr.eq where
+  refl a := by simp [SPtr.eq]
+  symm a b := by simp only [SPtr.eq_iff]; exact Eq.symm
+  trans a b c := by simp only [SPtr.eq_iff]; exact Eq.trans
+theorem shared_ptr_ne_eq_not (a b : SPtr) : SPtr.ne a b = !SPtr.eq a b := by
+  simp [SPtr.ne, SPtr.eq, bne]
+/-- on shared_ptrs `<` is a strict weak order whose incomparability is exactly `==` (it is total on the stored pointers) -/
+theorem shared_ptr_lt_strict_weak : StrictWeak SPtr.lt where
+  irrefl a := by simp [SPtr.lt]
+  trans a b c := by simp only [SPtr.lt, decide_eq_true_eq]; omega
+  incomp_trans a b c := by
+    simp only [Incomp, SPtr.lt, decide_eq_false_iff_not]; omega
+theorem shared_ptr_lt_compatible_eq : Compatible (fun a b => SPtr.eq a b = true) SPtr.lt where
+  incomp_of_eq a b := by simp only [SPtr.eq_iff, Incomp, SPtr.lt, decide_eq_false_iff_not]; omega
+  eq_of_incomp a b := by simp only [SPtr.eq_iff, Incomp, SPtr.lt, decide_eq_false_iff_not]; omega
+  congr_left a b c := by simp only [SPtr.eq_iff, SPtr.lt]; intro h; rw [h]
+  congr_right a b c := by simp only [SPtr.eq_iff, SPtr.lt]; intro h; rw [h]
+theorem shared_ptr_hash_eq_of_eq (hp : Nat → Nat) (a b : SPtr) (h : SPtr.eq a b = true) :
+    SPtr.hash hp a = SPtr.hash hp b := by
+  simp only [SPtr.hash, (SPtr.eq_iff a b).1 h]
+
+/-! ### bitfield (model and set semantics of C10; `~` included) -/
+theorem bitfield_eq_equivalence {w : Nat} : IsEquivalence (C10.eq (w := w)) :=
+  LawfulEq.isEquivalence (fun a b => by simp [C10.eq])
+theorem bitfield_ne_eq_not {w : Nat} (a b : C10.Words w) : C10.ne a b = !C10.eq a b := rfl
+/-- `==` on computed bitfields is equality of the denoted sets (padding never matters) -/
+theorem bitfield_eq_iff_components {w : Nat} (hw : 0 < w) (n : Nat) (e₁ e₂ : C10.Expr) (h₁ : e₁.Valid n) (h₂ : e₂.Valid n) :
+    C10.eq (e₁.eval n w) (e₂.eval n w) = true ↔ ∀ i, i < n → e₁.den i = e₂.den i :=
+  C10.eq_iff_same_set hw n e₁ e₂ h₁ h₂
+theorem bitfield_hash_eq_of_eq {w : Nat} (hc : Nat → Nat → Nat) (hwd : BitVec w → Nat) (a b : C10.Words w)
+    (h : C10.eq a b = true) : C10.hash hc hwd a = C10.hash hc hwd b := by
+  have : a = b := by simpa [C10.eq] using h
+  rw [this]
+
+/-! ## Non-vacuity: the component hypotheses hold for `int`; concrete values on every interesting branch -/
+
+example : LawfulEq (fun a b : Int => a == b) := fun a b => by simp
+example : StrictTotal (fun a b : Int => decide (a < b)) where
+  irrefl a := by simp
+  trans a b c := by simp only [decide_eq_true_eq]; omega
+  total a b := by simp only [decide_eq_true_eq]; omega
+-- signed overflow is a fault, unsigned wraps
+example : IntTy.i32.add 2147483647 1 = .error .signedOverflow := by rfl
+example : IntTy.u32.add 4294967295 1 = .ok 0 := by rfl
+example : IntTy.u32.neg 1 = .ok 4294967295 := by rfl
+example : ST.postInc .i32 ⟨5⟩ = .ok (⟨6⟩, ⟨5⟩) := by rfl
+-- optional: nothing < just 0; just 1 is not < just 0
+example : Opt.lt (fun a b : Int => decide (a < b)) none (some 0) = true ∧
+    Opt.lt (fun a b : Int => decide (a < b)) (some 1) (some 0) = false := by decide
+-- variant: the alternative index dominates the value
+example : Var.lt (fun a b : Int => decide (a < b)) ⟨0, 2⟩ ⟨1, 0⟩ = true := by decide
+-- grid: a 2x1 grid is not less than a 1x2 grid although its content is smaller (extent first)
+example : Grid.lt (fun a b : Int => decide (a < b)) (n := 2) ⟨⟨#[2, 1], rfl⟩, [0, 0]⟩ ⟨⟨#[1, 2], rfl⟩, [5, 5]⟩ = false := by
+  decide
+example : (⟨⟨#[2, 1], rfl⟩, [0, 0]⟩ : Grid Int 2).Wf := by rfl
+-- raw_vector: without the size test `std::equal` would read past the shorter vector
+example : stdEqual3 (fun a b : Int => a == b) [1, 2] [1] = .error .oob := by rfl
+example : RawVec.eq (fun a b : Int => a == b) [1, 2] [1] = .ok false := by rfl
+-- records with permuted elements compare by label
+example : Rec.eq (fun a b : Int => a == b) [(0, 4), (1, 7)] [(1, 7), (0, 4)] = some true := by decide
+example : Rec.eq (fun a b : Int => a == b) [(0, 4), (1, 7)] [(2, 7), (0, 4)] = none := by decide
+-- bitfield: ~{e0,e2} and {e1} are the same value, hence hash equally (the defect fixed in 2bd4a8e: the
+-- unmasked complement was a different array)
+example : C10.eq ((C10.Expr.not (.lit [0, 2])).eval 3 8) ((C10.Expr.lit [1]).eval 3 8) = true := by decide
+example : C10.eq (((C10.Expr.lit [0, 2]).eval 3 8).map (~~~ ·)) ((C10.Expr.lit [1]).eval 3 8) = false := by decide
+
+end Fcppt.C17
